@@ -468,7 +468,7 @@ def job(args):
     return (rel, q, kind, "FAIL" if bad else "ok", bad)
 
 
-def run_for_property(pid, root=ROOT, kinds=("rename", "flipcmp", "swapif", "noise2", "noise3", "swapind"), jobs=16):
+def run_for_property(pid, root=ROOT, kinds=("rename", "flipcmp", "swapif", "noise2", "noise3", "swapind", "augassign", "elseflat", "elsewrap", "retvar", "condsplit", "withsplit"), jobs=16):
     """must-stay-silent variants of the files this property's rules read, checked against this property only"""
     global ROOT
     ROOT = root
